@@ -41,7 +41,7 @@ FLOPPY = {1228800: 1, 1474560: 2, 2949120: 3}
 
 
 def strategy(tier):
-    progs = st.one_of(gen.boot(reopen_ok=True), gen.boot(reopen_ok=False), gen.boot(reopen_ok=False), gen.hybrid(reopen_ok=False), gen.bootlinks(reopen_ok=True))
+    progs = st.one_of(gen.boot(reopen_ok=True), gen.boot(reopen_ok=False), gen.boot(reopen_ok=False), gen.hybrid(reopen_ok=False), gen.bootlinks(reopen_ok=True), gen.twoboots(reopen_ok=True))
     return st.tuples(progs.map(lambda p: dict(p, profile='boot')), st.sampled_from([1, 512, 8192]))
 
 
@@ -117,8 +117,22 @@ def oracle(program, blocksize):
     if m.boot is None:
         if el is not None:
             failures.append(('C11/boot-record-without-eltorito', 'rm_eltorito', 'the image has an El Torito boot record although none was added / it was removed'))
-        if any(d['raw'][7:39].rstrip(b'\0') == b'EL TORITO SPECIFICATION' for d in info.get('boot_records', [])):
-            pass
+        if 'rm_eltorito' in m.classes and m.hybrid is None:
+            # ... and everything that only El Torito referred to went with it: no sector is left without an owner, the
+            # volume ends where its last object ends, what remains does not overlap (the allocation clauses of C04)
+            from vf.props.c04 import allocation_failures
+            fs, loc, uinfo, ivs, vol, hyb = allocation_failures(m, img, info, prefix='C11/after-rm-eltorito')
+            seen = set()
+            for sig, clause, msg in fs:
+                if sig not in seen:
+                    seen.add(sig)
+                    failures.append((sig, 'rm_eltorito', msg))
+            if vol:
+                last = max([first + n for first, n, k, o in ivs if k != 'system-area'] + [0])
+                if last < vol:
+                    failures.append(('C11/after-rm-eltorito/space-not-released', 'rm_eltorito',
+                                     'El Torito was removed; the volume declares %d sectors, the last object ends at %d (a boot file only the catalogue referred to is still there?)' % (vol, last)))
+            run.stats['after_rm_checked'] = 1
         run.close()
         return run, failures
     if el is None or 'initial' not in el:
